@@ -213,6 +213,17 @@ Theorem C03_synrule_default_skeleton : forall (tpl rc : its) (l r : molg),
 Proof. exact synrule_default_skeleton. Qed.
 Print Assumptions C03_synrule_default_skeleton.
 
+(** ... and therefore, in default mode, the changed bonds of every proposed ITS (before _explicit_h re-materialises the
+    migrating hydrogens) are exactly the images of the template's changed bonds that touch no stripped hydrogen *)
+Theorem C03_default_changed_bonds : forall (tpl rc : its) (l r : molg) (host : hostg) (m : mapping) (T : its),
+  nodupb (node_ids tpl) = true -> synrule tpl true = Some (rc, l, r) ->
+  wf_hostb host = true -> wf_rcb rc = true -> match_rcb host rc m = true -> glue host rc m = Some T ->
+  exists removed : list N,
+    (forall h : N, In h removed -> is_H_i tpl h = true) /\
+    Permutation (changed_bonds T) (flat_map (image_key m) (filter is_changed (filter (keepe removed) (gedges tpl)))).
+Proof. exact default_changed_bonds. Qed.
+Print Assumptions C03_default_changed_bonds.
+
 (** ** the explicit-hydrogen stage (_explicit_h after gluing) — PARTIAL
 
     Full statement wanted: (a)-(c) for the graph returned by _explicit_h on the hydrogen-expanded substrate, i.e.
